@@ -629,10 +629,17 @@ impl Transaction {
 
 		let snapshot = self.snapshot.as_ref().ok_or(Error::NoSnapshot)?;
 
+		// An inverted range is empty: use [start, start) (see TransactionRangeIterator).
+		let end_bound: &[u8] = if start.as_slice() <= end.as_slice() {
+			end.as_slice()
+		} else {
+			start.as_slice()
+		};
+
 		// Use unified history_iter() which chooses the appropriate backend
 		let inner = snapshot.history_iter(
 			Some(start.as_slice()),
-			Some(end.as_slice()),
+			Some(end_bound),
 			opts.include_tombstones,
 			opts.ts_range,
 			opts.limit,
@@ -1008,6 +1015,14 @@ impl<'a> TransactionRangeIterator<'a> {
 		let snapshot = match &tx.snapshot {
 			Some(snap) => snap,
 			None => return Err(Error::NoSnapshot),
+		};
+
+		// An inverted range [start, end) with start > end is empty. Hand the empty range
+		// [start, start) to the sources instead: they index tables and maps with the
+		// bounds and panic on start > end.
+		let end_key = match (&start_key, end_key) {
+			(Some(s), Some(e)) if *s > e => Some(s.clone()),
+			(_, e) => e,
 		};
 
 		// Create a snapshot iterator for the range (now returns SnapshotIterator directly)
